@@ -59,6 +59,7 @@ import Sds.Proofs.Glue2
 import Sds.Proofs.Iter2
 import Sds.Proofs.RLPredSucc
 import Sds.Proofs.GenEqIter
+import Sds.Proofs.GenEqLoop2
 
 namespace Sds.C10
 open Sds Outcome IterProofs Iter2
@@ -627,5 +628,24 @@ theorem two_cursor_iterators_as_translated_from_source {α} (m : Mode) (get : Na
 /-- the translated `nth(usize::MAX)` after one `next()` exhausts the iterator and returns `None` in the checked build
 (the input of several seeded changes: an unclamped `next + n` panics here) -/
 example : Generated.gen_AccessIter_nth .checked (fun i => i) ⟨1, 7⟩ (U64 - 1) = ok (none, ⟨7, 7⟩) := by decide
+
+/-! **`OneIter<T>` as translated from the source on this run — loops included** (`Generated/FnsLoop.lean`): `next` (forward
+scan for a non-zero word), `nth` (the repaired guard `n >= limit.0 - next.0` of finding F1, then the counted scan),
+`next_back` (backward scan, `leading_zeros`), `size_hint`.  For every cursor state, every `n`, both transformations and
+both build modes the code as it is NOW is `nextQ` / `nthQ` / `nextBackQ` — the step functions of the simulation theorems
+above.  Hypotheses: the vector has fewer than 2^64 words; for `nth`, the rank limit is a `usize`. -/
+theorem one_iterators_as_translated_from_source (m : Mode) (tr : Tr) (b : BitVector) (it : OneIterSt) (n : Nat)
+    (hv : b.data.data.size < U64) (hl : it.limit.1 ≤ U64) :
+    Generated.gen_OneIter_next m tr b.data it = OneIterSt.nextQ tr m b it ∧
+    Generated.gen_OneIter_nth m tr b.data it n = OneIterSt.nthQ tr m b it n ∧
+    Generated.gen_OneIter_next_back m tr b.data it = OneIterSt.nextBackQ tr m b it ∧
+    (it.next.1 ≤ it.limit.1 → Generated.gen_OneIter_size_hint m tr b.data it = ok (it.remaining, some it.remaining)) :=
+  ⟨GenEq.one_next_eq m tr b it hv, GenEq.one_nth_eq m tr b it n hv hl, GenEq.one_next_back_eq m tr b it,
+   fun h => GenEq.one_size_hint_eq m tr b it h⟩
+
+/-- the translated `one_iter(); next(); nth(usize::MAX)` (finding F1) returns `None` and exhausts the iterator in the
+checked build, without reading a word -/
+example : Generated.gen_OneIter_nth .checked .ident (RawVec.ofBits [true, false, true]) ⟨(1, 1), (2, 3)⟩ (U64 - 1)
+    = ok (none, ⟨(2, 3), (2, 3)⟩) := by decide +kernel
 
 end Sds.C10
